@@ -96,6 +96,21 @@
 //	            returned with the results, so an assignment on the success paths only is visible as
 //	            the unchanged parameter on the error paths).
 //
+// render      (renderings family: pkg/cantext/encode.go, pkg/canjson/encode.go; readings: Translate/GoSemText.v, last block)
+//	            append-style byte building on a []byte variable v that is a make'd local or a []byte PARAMETER (a
+//	            parameter assigned as a whole is a rebound local, nothing is written through it; rebinding AND
+//	            storing through the same parameter is an error): `v = append(v, x...)` (x a string or []byte),
+//	            `v = append(v, b1, .., bn)` (bytes), `v = strconv.AppendUint(v, u, 10|16)`, `AppendInt(v, i, 10)`,
+//	            `AppendBool(v, b)`, `AppendFloat(v, f, 'g'|'f', -1, 64)`, `v = F(v, ...)` with F a whitelisted
+//	            function returning []byte; all read as go_append = concatenation of CONTENTS (whether the result
+//	            shares v's backing array is not represented). strconv.FormatUint(u, 10|16), FormatInt(i, 10),
+//	            FormatBool = the printers of Gen/RenderNum.v (other bases: error). strconv.FormatFloat /
+//	            AppendFloat with format 'g' or 'f', precision -1, bit size 64 HAVE NO MODEL: ORACLES
+//	            o_strconv_FormatFloat_g / _f : Z -> go_string, leading parameters of every translated function
+//	            that uses them (directly or through a callee), applied to the bit pattern go_math_Float64bits f;
+//	            any other format / precision / bit size: error. Conversions between string types (json.Number),
+//	            string([]byte), []byte(string): the same bytes.
+//
 // Every integer operation is emitted at the static type go/types reports for that expression,
 // against the operators of coq/theories/Translate/GoSem.v, every floating-point operation against
 // those of coq/theories/Translate/GoSemFloat.v (see those files' headers for the reading of Go's
